@@ -1,7 +1,8 @@
 ----------------------------- MODULE WarmUpOps -----------------------------
 (***************************************************************************)
 (* Exact RATIONAL transcription of the warm-up token calculator            *)
-(* (core/flow/tc_warm_up.go) and the envelope of property C11.             *)
+(* (core/flow/tc_warm_up.go, as of fixes 704a566 and 7ba6ba0) and the      *)
+(* envelope of property C11.                                               *)
 (* Constant-free: used by WarmUp (model checking) and WarmUp_Trace         *)
 (* (validation of executions of the real code).                            *)
 (*                                                                         *)
@@ -35,17 +36,24 @@ ColdLimit(cfg) == (cfg.tn \div cfg.td) \div Cold(cfg)
 Refill(cfg, gap) == IF gap < 0 THEN (IF cfg.tn > 0 THEN MaxTok(cfg) + 1 ELSE 0) ELSE (gap * cfg.tn) \div cfg.td
 CoolDown(cfg, old, gap, prev) ==
     LET new == IF old < Warn(cfg) THEN old + Refill(cfg, gap)
-               ELSE IF old > Warn(cfg) /\ prev < ColdLimit(cfg) THEN old + Refill(cfg, gap)
-               ELSE old                                   \* (old = Warn: neither branch - nothing is added)
+               \* at or above the warning line (the line itself included since fix 704a566): only while the previous QPS
+               \* is below the cold limit
+               ELSE IF prev < ColdLimit(cfg) THEN old + Refill(cfg, gap)
+               ELSE old
     IN  Min2(new, MaxTok(cfg))
 \* syncToken, executed by the first request of an aligned second: new stored tokens
 Sync(cfg, old, gap, prev) == Max2(0, CoolDown(cfg, old, gap, prev) - prev)
 
 \* CalculateAllowedTokens after the sync: the effective threshold as a rational
+WarnZone(cfg, stored) ==
+    \* 1 / (above * slope + 1/T)  =  tn * Diff / (td * (above * (cold-1) + Diff))
+    [n |-> cfg.tn * Diff(cfg), d |-> cfg.td * ((stored - Warn(cfg)) * (Cold(cfg) - 1) + Diff(cfg))]
 Allowed(cfg, stored) ==
     IF stored >= Warn(cfg)
-      THEN \* 1 / (above * slope + 1/T)  =  tn * Diff / (td * (above * (cold-1) + Diff))
-           [n |-> cfg.tn * Diff(cfg), d |-> cfg.td * ((stored - Warn(cfg)) * (Cold(cfg) - 1) + Diff(cfg))]
+      THEN LET a == WarnZone(cfg, stored) IN
+           \* since fix 7ba6ba0: with T >= 1 the warning-zone rate is never below one token per window
+           \* (a float that rounds an exact 1 to 0.999.. is lifted to 1.0 as well; "not a number" is not below 1)
+           IF a.d > 0 /\ a.n < a.d /\ cfg.tn >= cfg.td THEN [n |-> 1, d |-> 1] ELSE a
       ELSE [n |-> cfg.tn, d |-> cfg.td]
 Defined(a) == a.d # 0
 \* reject checker: curCount + batch > allowed
@@ -63,7 +71,10 @@ IdleEnough(cfg) == 2 * cfg.p + 2                 \* idle seconds after which the
 WarmEnough(cfg) == 2 * cfg.p + 2                 \* saturated seconds after which the full threshold must be reached (see notes: integer tokens)
 StarveBound(cfg) == 2 * cfg.p + 5                \* consecutive seconds of unserved single-token demand that count as "forever"
 
-\* configuration classes in which the pinned implementation is known to leave the envelope (see notes/C11.md)
+\* configuration classes in which the implementation is known to leave the envelope (see notes/C11.md).
+\* ColdBelowOne: before fix 7ba6ba0 every request was rejected forever; since then requests are served, which exposes that
+\* ColdLimit = uint32(T)/cold = 0 there: at or above the warning line the bucket is never refilled, so after an idle
+\* period the rule is not cold again (ColdAfterIdle).
 Degenerate(cfg)   == ~SlopeDefined(cfg)                                          \* maxToken = warningToken (or T = 0)
 ColdBelowOne(cfg) == /\ SlopeDefined(cfg) /\ Warn(cfg) > 0
                      /\ cfg.tn >= cfg.td /\ cfg.tn < cfg.td * Cold(cfg)           \* 1 <= T but cold rate T/cold < 1 token
